@@ -9,6 +9,11 @@ TB = ('Coq 8.16.1 kernel + vm_compute (no native_compute); axioms per theorem as
 CLAIMED = {
  'C01': dict(text='Proof (Coq): the model of afb1d (all five modes, row pass) equals PyWavelets\' closed form for every length, filter and signal over any commutative ring (C01_level_row, C01_level_row_per under the guard N\'>=L, with C01_per_short_refuted showing the guard is necessary = known finding KF-PER-SHORT). The model is tied to the code by exact operator-matrix correspondence on every run, the closed form to pywt by correspondence B; column pass / band split / level loop are covered by correspondence and the pywt oracle, not yet by a theorem.',
              ref='4 C01', technique='Coq proof over a hand-written model + exact model/implementation correspondence (vm_compute) + pywt oracle search'),
+
+ 'C12': dict(text='Proof (Coq) over the axis tables translated from /repo on every run: for all 144 integer pairs (o,ri) in [-6,6)^2 with o != ri (mod 6) get_dimensions5/6 return exactly the positions obtained by inserting the orientation and real/imag axes into [N,C,H,W] (C12_dims_correct, finite computation lifted with forallb_forall, re-proves for any equivalent rewrite). The translator is validated on the whole domain against the Python functions each run. Layout = pure axis move, inverse with the same pair, skip masks, include_scale and prefix consistency are decided on the real modules by an exhaustive oracle over all 132 (o,ri) aliases and all masks for J<=3; a theorem about the module-level stack/unbind is not yet in the model.',
+             ref='4 C12', technique='Coq proof over generated (translated) definitions + exhaustive oracle on the real modules'),
+ 'C18': dict(text='Proof (Coq), exhaustive over a finite domain: every float64 entry of every shipped .npz is regenerated as an exact dyadic and the kernel computes: equality with the reference package tables (exact), level-1 symmetry (2^-47), level-1 undecimated PR (2^-44), q-shift tree b = reverse of tree a and synthesis = reverse of analysis (exact, band-pass variants included), orthonormality of each tree (2^-44; qshift_32 2^-28), the sign facts the reference branches on; the cache as a state machine gives load-twice equality (C18_load_twice, C18_cache_monotone).',
+             ref='4 C18', technique='Coq kernel computation (vm_compute) over tables generated from the .npz bytes + state-machine lemma for the cache'),
 }
 REASONS_PENDING = 'check under construction in this session (Coq model and correspondence exist or are being built; not yet registered)'
 
